@@ -243,6 +243,12 @@ def gen_env(rng, world, allow_dtype=True, allow_ino=True):
     if rng.random() < 0.12:
         # the consumer of stdout accepts fewer bytes than offered (legal for any write(2)): no property may depend on it
         plan["out_accept"] = {"cycle": True, "sizes": rng.choice([[1], [7], [64, 3], [500], [1000, 24, 1], [rng.randint(1, 2000) for _ in range(3)]])}
+    if rng.random() < 0.08:
+        # the user's configuration file switches defaults that must change nothing in a world without ignore files
+        opts = rng.sample(["no_color = true", "no_color = false", "gitignore = true", "hgignore = true", "dockerignore = true", "gitignore = false",
+                           "check_for_updates = false"], rng.choice([1, 2, 3]))
+        if not ("no_color = true" in opts and "no_color = false" in opts) and not ("gitignore = true" in opts and "gitignore = false" in opts):
+            plan["config"] = "\n".join(opts) + "\n"
     return cls, plan
 
 
